@@ -22,6 +22,17 @@ pub struct VidyaRef {
 	pub r: rm::Vidya,
 	pub n: usize,
 	pub recent: Vec<f64>,
+	/// running up/down sums maintained the way a sliding add/subtract accumulator does (label only:
+	/// tells "flat window with rounding residue in such sums" from "flat window, sums cancel exactly")
+	pub up: f64,
+	pub dn: f64,
+	pub changes: std::collections::VecDeque<f64>,
+	pub last: f64,
+}
+impl VidyaRef {
+	pub fn new(n: usize, v0: f64) -> Self {
+		Self { r: rm::Vidya::new(n, v0), n, recent: vec![v0; n + 1], up: 0.0, dn: 0.0, changes: std::iter::repeat(0.0).take(n).collect(), last: v0 }
+	}
 }
 impl RefAny for VidyaRef {
 	fn next(&mut self, i: &In) -> (Expect, &'static str) {
@@ -30,9 +41,32 @@ impl RefAny for VidyaRef {
 		if self.recent.len() > self.n + 1 {
 			self.recent.remove(0);
 		}
+		let ch = x - self.last;
+		self.last = x;
+		let left = self.changes.pop_front().unwrap_or(0.0);
+		self.changes.push_back(ch);
+		if left > 0.0 {
+			self.up -= left;
+		}
+		if left < 0.0 {
+			self.dn += left;
+		}
+		if ch > 0.0 {
+			self.up += ch;
+		}
+		if ch < 0.0 {
+			self.dn -= ch;
+		}
 		let flat = self.recent.len() == self.n + 1 && self.recent.iter().all(|v| *v == x);
 		let q = rm::RefVV::next(&mut self.r, x);
-		(Expect::Q(q), if flat { "flat-window" } else { "value" })
+		let class = if !flat {
+			"value"
+		} else if self.up != 0.0 || self.dn != 0.0 {
+			"flat-window/residue-in-running-sums"
+		} else {
+			"flat-window/sums-cancel-exactly"
+		};
+		(Expect::Q(q), class)
 	}
 	fn box_clone(&self) -> Box<dyn RefAny> {
 		Box::new(self.clone())
@@ -243,7 +277,7 @@ pub fn method_ref(name: &str, p: &Params, i: &In) -> Option<Box<dyn RefAny>> {
 			let Params::NN(s, l) = p else { return None };
 			Some(vv(rm::Tsi::new(*s as usize, *l as usize, v0)))
 		}
-		"Vidya" => Some(Box::new(VidyaRef { r: rm::Vidya::new(n, v0), n, recent: vec![v0; n + 1] })),
+		"Vidya" => Some(Box::new(VidyaRef::new(n, v0))),
 		"TR" => {
 			let In::C(c) = i else { return None };
 			Some(Box::new(TrRef(c.close as f64)))
@@ -269,7 +303,11 @@ pub fn method_ref(name: &str, p: &Params, i: &In) -> Option<Box<dyn RefAny>> {
 			let Params::Ma(m) = p else { return None };
 			use yata::core::MovingAverageConstructor;
 			// ma_type numbering of the crate: 0 sma 1 wma 2 hma 3 rma 4 ema 5 dma 6 tma 7 dema 8 tema 9 wsma 10 smm 11 swma 12 trima 13 linreg 14 vidya
-			Some(vv_box(rm::ma_q(["sma", "wma", "hma", "rma", "ema", "dma", "tma", "dema", "tema", "wsma", "smm", "swma", "trima", "linreg", "vidya"][m.ma_type() as usize], m.ma_period() as usize, refmodel::Q::exact(v0))))
+			let kind = ["sma", "wma", "hma", "rma", "ema", "dma", "tma", "dema", "tema", "wsma", "smm", "swma", "trima", "linreg", "vidya"][m.ma_type() as usize];
+			if kind == "vidya" {
+				return Some(Box::new(VidyaRef::new(m.ma_period() as usize, v0)));
+			}
+			Some(vv_box(rm::ma_q(kind, m.ma_period() as usize, refmodel::Q::exact(v0))))
 		}
 		_ => None,
 	}
